@@ -121,7 +121,7 @@ func main() {
 	addOp(plain(all), true)
 	addOp(plain(all[:9], all[9:17], all[17:]), true)
 	addOp(plain([]int{6, 7}, []int{8, 9}, []int{14, 15}, []int{16, 17}), true)
-	addOp(nil, true)                             // security: [] -> anonymous
+	addOp(nil, true)                           // security: [] -> anonymous
 	addOp(plain([]int{3}, []int{4, 5}), false) // inherits the global requirement
 	// one operation per kind and mixed kinds
 	addOp(plain([]int{iBasic}), true)
